@@ -226,7 +226,9 @@ def check_C02(ctx):
         if '/opt0/' not in s['label']:
             f = json.loads(json.dumps(s)); f['id'] += '/filtered'; f['label'] += '/filtered'; f['filter'] = True
             scen.append(f)
-    wire_family(ctx, 'C02', scen, WIRE_RULE % 'C02All (replies with outer IP options also behind the real capture filters)', nontrivial=delivered_something)
+    # every destination-unreachable code, from the target and from a router on the way (the responder x code matrix of C04All)
+    scen += [s for s in vt.tlc_generate(ctx, 'GenWire', 'C04', 0) if '/du_code/' in s['id'] and s['variant'].startswith('udp')]
+    wire_family(ctx, 'C02', scen, WIRE_RULE % 'C02All (replies with outer IP options also behind the real capture filters) + the UDP destination-unreachable code matrix of C04All', nontrivial=delivered_something)
     vt.write_evidence(ctx, 'model_checking', ctx_rule(ctx), exhaustive=False)
 
 def check_C04(ctx):
@@ -262,7 +264,7 @@ def check_C05(ctx):
     rule = ctx_rule(ctx)
     scen = vt.tlc_generate(ctx, 'GenWire', 'C05', 0)
     if ctx.quick():
-        keep = ('/late/', '/eager/', '/sackwrap/', '/stall/')
+        keep = ('/late/', '/eager/', '/sackwrap/', '/stall/', '/base/')
         late = [s for s in scen if any(k in s['id'] for k in keep)]
         rest = [s for s in scen if not any(k in s['id'] for k in keep)]
         scen = late + rest[ctx.seed % 5::5]
@@ -277,6 +279,8 @@ def check_C06(ctx):
     rule = ctx_rule(ctx)
     scen = vt.tlc_generate(ctx, 'GenWire', 'C06', 0)
     scen += vt.tlc_generate(ctx, 'GenRun', 'C06', 0)       # request level: the configured delay against every timeout
+    # sending stops after the destination's answer whatever destination-unreachable code it uses (UDP)
+    scen += [s for s in vt.tlc_generate(ctx, 'GenWire', 'C04', 0) if '/du_code/' in s['id'] and s['variant'].startswith('udp') and s['id'].endswith('/TARGET')]
     wire_family(ctx, 'C06', scen, rule, nontrivial=lambda s, es: any(e['event'] == 'Send' for e in es))
     ctx.extra['rule'] = rule + '; plus ' + (WIRE_RULE % 'C06All (255-TTL runs for every variant and identifier base; destination answers at every position relative to pacing)')
     vt.write_evidence(ctx, 'model_checking', ctx_rule(ctx), exhaustive=True)
@@ -966,6 +970,12 @@ def check_C07(ctx):
     if not ctx.quick():
         cfgs += ['EngineParallelMC_4.cfg', 'EngineParallelMC_hi.cfg']
     engines(ctx, 'C07', cfgs, [], ['C07'])
+    rule = ctx_rule(ctx)
+    # the same two rules through the real drivers: several accepted replies to one probe on the wire
+    scen = vt.tlc_generate(ctx, 'GenWire', 'C07', 0)
+    scen += [s for s in vt.tlc_generate(ctx, 'GenWire', 'C05', 0) if ('/dup' in s['id'] and '/dup0' not in s['id'] and s['variant'] not in ('tcp', 'tcp_paris'))][ctx.seed % 3::3 if ctx.quick() else 1]
+    wire_family(ctx, 'C07', scen, rule, nontrivial=delivered_something)
+    ctx.extra['rule'] = rule + '; plus GenWire!C07All (router/destination/second-router replies to ONE probe in every order, 1 ms and 150 ms apart, every parallel-capable variant) and the duplicate scenarios of C05All through the protocol entry points, judged by Props!C07_run'
     vt.write_evidence(ctx, 'model_checking', ctx_rule(ctx), exhaustive=True)
 
 CHECKS = {
